@@ -181,6 +181,32 @@ def calls_to_fn_(F, g, target):
     return calls_to_fn(F, g, target)
 
 
+def created_exclusively(ctx, fn, operand, callers):
+    """name of the local open helper that produced the file with a literal `true` for a flag under which it applies create_new(true) -- looked for in the slice of the
+    operand in fn and, through fn's parameters, in the callers on the trace context (`write_fully(&mut file, buf)`); None otherwise"""
+    F = ctx.facts
+    level = [(fn, operand, list(callers))]
+    for _ in range(5):
+        nxt = []
+        for (lf, lop, lctx) in level:
+            _, latoms = ctx.du(lf).slice_operand(lop)
+            for a in latoms:
+                if a[0] == 'call' and a[2] in F.by_path:
+                    g = F.by_path[a[2]]
+                    for p, v in const_args(g, lf.term(a[1])).items():
+                        if v and _creates_new_under(F, ctx, g, p):
+                            return g.qual
+                if a[0] == 'arg' and lctx:
+                    cfn, cbb = lctx[-1][0], lctx[-1][1]
+                    cargs = cfn.term(cbb)['args']
+                    if 1 <= a[1] <= len(cargs):
+                        nxt.append((cfn, cargs[a[1] - 1], lctx[:-1]))
+        level = nxt
+        if not level:
+            break
+    return None
+
+
 def open_existing(ctx, rule='C06.open-existing'):
     res = []
     F = ctx.facts
@@ -202,15 +228,11 @@ def open_existing(ctx, rule='C06.open-existing'):
         fresh = False
         why = ''
         # form 1: the file comes from a local open helper called with a literal `true` for its create flag, and that helper applies create_new(true) under the flag
-        for a in atoms:
-            if a[0] == 'call' and a[2] in F.by_path:
-                g = F.by_path[a[2]]
-                ct = fn.term(a[1])
-                ca = const_args(g, ct)
-                for p, v in ca.items():
-                    if v and _creates_new_under(F, ctx, g, p):
-                        fresh = True
-                        why = 'file obtained from %s(.., true, ..) which applies create_new(true)' % g.qual
+        # (looked for in the function of the event and, through its parameters, in the callers on the trace context: `write_fully(&mut file, buf)`)
+        who = created_exclusively(ctx, fn, t['args'][0], list(n.ctx))
+        if who:
+            fresh = True
+            why = 'file obtained from %s(.., true, ..) which applies create_new(true)' % who
         # form 2: control dependent on a comparison of the file length with zero, taken AFTER the exclusive file lock
         # (an emptiness test before the lock is a race: another opener may be initialising the same empty file)
         locked = e['node'] not in T.reach({T.nodes[0].id}, avoid={x['ok_node'] for x in T.events('L') if x.get('method') == 'lock_exclusive' and 'ok_node' in x})
